@@ -704,8 +704,11 @@ func (p *Posix) deleteNullVersionIdObject(bucket, key string) error {
 	if errors.Is(err, fs.ErrNotExist) {
 		return nil
 	}
+	if err != nil {
+		return err
+	}
 
-	return err
+	return p.meta.DeleteAttributes(p.genObjVersionPath(bucket, key), nullVersionId)
 }
 
 // Creates a new copy(version) of an object in the versioning directory
@@ -3099,6 +3102,11 @@ func (p *Posix) DeleteObject(ctx context.Context, input *s3.DeleteObjectInput) (
 				if err != nil {
 					return nil, fmt.Errorf("remove obj version: %w", err)
 				}
+				// attributes kept by name (sidecar) go with the file
+				err = p.meta.DeleteAttributes(bucket, object)
+				if err != nil {
+					return nil, fmt.Errorf("remove obj version attributes: %w", err)
+				}
 
 				ents, err := os.ReadDir(versionPath)
 				if errors.Is(err, fs.ErrNotExist) {
@@ -3184,6 +3192,10 @@ func (p *Posix) DeleteObject(ctx context.Context, input *s3.DeleteObjectInput) (
 				if err != nil {
 					return nil, fmt.Errorf("remove obj version %w", err)
 				}
+				err = p.meta.DeleteAttributes(versionPath, srcVersionId)
+				if err != nil {
+					return nil, fmt.Errorf("remove obj version attributes: %w", err)
+				}
 
 				p.removeParents(filepath.Join(p.versioningDir, bucket), filepath.Join(genObjVersionKey(object), *input.VersionId))
 
@@ -3204,6 +3216,10 @@ func (p *Posix) DeleteObject(ctx context.Context, input *s3.DeleteObjectInput) (
 			}
 			if err != nil {
 				return nil, fmt.Errorf("delete object: %w", err)
+			}
+			err = p.meta.DeleteAttributes(versionPath, *input.VersionId)
+			if err != nil {
+				return nil, fmt.Errorf("delete object attributes: %w", err)
 			}
 
 			p.removeParents(filepath.Join(p.versioningDir, bucket), filepath.Join(genObjVersionKey(object), *input.VersionId))
